@@ -18,8 +18,9 @@ META = {
             "deleted nodes), every spec-enabled call applied to every reachable concrete state; after each call the "
             "result, the in-order contents and the AVL invariants are compared with the spec. Long seeded histories on "
             "64 values are recorded from the real code and accepted or rejected by TLC (trace validation).",
-    "note": "Small scope for the exhaustive part: 5 values/1-2 iterators (quick), 7 values/2 iterators (thorough), "
-            "3 tokens x 2 values for the token level. Iterator semantics is the deterministic rule of DESIGN.md A.2 "
+    "note": "Small scope for the exhaustive part: 8 values/1 iterator and 4 values/2 iterators (quick), 10 values/1 "
+            "iterator and 6 values/2 iterators (thorough), 3 tokens x 2 values for the token level (trees of 12+ nodes, "
+            "where a deletion rotates at two levels, are only reached by the random histories). Iterator semantics is the deterministic rule of DESIGN.md A.2 "
             "(least element of the current set beyond the last one returned), which implies the statement. Trusted: "
             "TLC, the read-only dump in search/export_verif.go, the Go adapter.",
     "technique": "TLA+ spec (TreeSet) + TLC exhaustive; product BFS of the exported transition graph x concrete AVL "
@@ -55,7 +56,7 @@ def build_graph(edges, path, corrupt=None):
         if ev["op"] in ("next", "advance") and ev.get("ok"):
             if corrupt is not None and moves == corrupt:
                 ev = dict(ev)
-                ev["v"] = ev["v"] % 5 + 1 if ev["v"] % 5 + 1 != ev["v"] else ev["v"] + 1
+                ev["v"] = ev["v"] + 1
             moves += 1
         out.append([f, t, ev])
         st = e["from"]
@@ -265,8 +266,11 @@ def trace_check(ctx, binary, seed, ops, runs, name, corrupt=False):
         ctx.extra_cov["trace_calls_avoided_known_fatal"] = lines[-1]["avoided"]
     text = open(tpath).read()
     events = text.count("\n")
-    if events < ops // 4:
+    stopped = lines[-1].get("stopped") if lines else None
+    if events < ops // 4 and not stopped:
         raise Inconclusive("driver recorded only %d events" % events)
+    if stopped:
+        ctx.note("driver stopped after %d events: %s (the recorded history is judged by TLC)" % (events, stopped))
     if corrupt:
         # self-test: change the value one Next returned (the last successful one) and expect rejection
         rows = text.split("\n")
@@ -277,8 +281,15 @@ def trace_check(ctx, binary, seed, ops, runs, name, corrupt=False):
                 rows[j] = json.dumps(e, separators=(",", ":"))
                 break
         text = "\n".join(rows)
-    r = ctx.tlc("TreeSetTrace", "TreeSetTrace.cfg", files={"trace.ndjson": text}, workers=1, expect_violation=True,
-                count=not corrupt, heap="4g")
+    try:
+        r = ctx.tlc("TreeSetTrace", "TreeSetTrace.cfg", files={"trace.ndjson": text}, workers=1,
+                    expect_violation=True, count=not corrupt, heap="4g", timeout=1500)
+    except Inconclusive:
+        # this TLC words a false POSTCONDITION differently from what vlib looks for: that is a rejected trace
+        r = ctx.tlc_runs[-1] if ctx.tlc_runs else None
+        if r is None or "Postcondition Accepted" not in r.out or "is false" not in r.out:
+            raise
+        r.violated = "postcondition"
     return r, events, text
 
 
@@ -291,9 +302,9 @@ def run(ctx):
         ctx.tlc("TreeSet", "TreeSetProps2.cfg", timeout=1500)
 
     # ---- binding A: product exploration
-    plan = [("TreeSet.cfg", "k5i1", 100), ("TreeSetTokens.cfg", "tokens", 100), ("TreeSetTwoIt.cfg", "k5i2", 110)]
+    plan = [("TreeSet.cfg", "k8i1", 110), ("TreeSetTokens.cfg", "tokens", 110), ("TreeSetTwoIt.cfg", "k4i2", 110)]
     if not ctx.quick:
-        plan.append(("TreeSetBig.cfg", "k7i2", 800))
+        plan += [("TreeSetTwoItBig.cfg", "k6i2", 800), ("TreeSetBig.cfg", "k10i1", 800)]
     total_states = 0
     for cfg, label, tmo in plan:
         v = product(ctx, binary, cfg, "product-" + label, tmo)
@@ -335,7 +346,7 @@ def run(ctx):
 
     # ---- the bindings are real: one corrupted expectation must be noticed (thorough tier)
     if not ctx.quick:
-        v = product(ctx, binary, "TreeSet.cfg", "selftest-product", 100, corrupt=37, count=False)
+        v = product(ctx, binary, "TreeSetTwoIt.cfg", "selftest-product", 110, corrupt=37, count=False)
         if v.get("ok"):
             raise Inconclusive("self-test: a corrupted expected value in the graph was not noticed by the walker")
         r2, _, _ = trace_check(ctx, binary, ctx.seed, 4000, 2, "selftest-trace", corrupt=True)
